@@ -3,6 +3,7 @@ package protofields
 import (
 	"strings"
 
+	apb "github.com/google/fhir/go/proto/google/fhir/proto/annotations_go_proto"
 	dtpb "github.com/google/fhir/go/proto/google/fhir/proto/r4/core/datatypes_go_proto"
 	bcrpb "github.com/google/fhir/go/proto/google/fhir/proto/r4/core/resources/bundle_and_contained_resource_go_proto"
 	"github.com/iancoleman/strcase"
@@ -108,7 +109,11 @@ func IsCodeField(message proto.Message) bool {
 	if field != nil {
 		allowedKinds := []protoreflect.Kind{protoreflect.EnumKind, protoreflect.StringKind}
 		isValidFieldType := slices.Includes(allowedKinds, field.Kind())
-		return strings.HasSuffix(name, "Code") && isValidFieldType
+		// Codes bound to a value set are generated as "<Element>Code" messages, or as
+		// "CodeType" when the element itself is named "code"; both carry the
+		// value set annotation.
+		boundCode := proto.GetExtension(reflect.Descriptor().Options(), apb.E_FhirValuesetUrl).(string) != ""
+		return (strings.HasSuffix(name, "Code") || boundCode) && isValidFieldType
 	}
 	return false
 }
